@@ -157,3 +157,100 @@ Example amqplain_only_is_unsupported :
   start_ok {| c_user := []; c_pass := []; c_vhost := []; c_heartbeat := 0 |}
            [65;77;81;80;76;65;73;78]%N = None.
 Proof. reflexivity. Qed.
+
+(* ---- every frame sequence on channel 0 (adversarial broker included) ----
+   Whatever the broker sends, in whatever order and however often, every frame
+   the client writes is justified by a frame it received and by its own
+   configuration, and no refusal code is ever lost. *)
+Definition out_justified (cfg : hs_cfg) (fs : list in_frame) (o : out_frame) : Prop :=
+  match o with
+  | OStartOk m r => exists mechs, In (IStart mechs) fs /\ start_ok cfg mechs = Some (m, r)
+  | OTuneOk c f hb => exists cm fm h, In (ITune cm fm h) fs /\
+                      c = negotiate cm 65535 /\ f = negotiate fm 131072 /\ hb = c_heartbeat cfg
+  | OOpen v => v = c_vhost cfg
+  end.
+
+Lemma out_justified_mono cfg fs gs o :
+  out_justified cfg fs o -> out_justified cfg (fs ++ gs) o.
+Proof.
+  destruct o as [m r|c f hb|v]; cbn [out_justified].
+  - intros (mechs & Hin & H). exists mechs. split; [apply in_or_app; auto|exact H].
+  - intros (cm & fm & h & Hin & H). exists cm, fm, h. split; [apply in_or_app; auto|exact H].
+  - auto.
+Qed.
+
+Lemma step_justified cfg pre s f :
+  Forall (out_justified cfg pre) (h_out s) ->
+  Forall (out_justified cfg (pre ++ [f])) (h_out (ch0_step cfg s f)).
+Proof.
+  intros H.
+  assert (H' : Forall (out_justified cfg (pre ++ [f])) (h_out s)).
+  { eapply Forall_impl; [|exact H]. intros o. apply out_justified_mono. }
+  destruct f as [mechs|cm fm h| | | | | | | ]; cbn [ch0_step h_out]; try exact H'.
+  - destruct (start_ok cfg mechs) as [[m r]|] eqn:E; cbn [h_out]; [|exact H'].
+    apply Forall_app. split; [exact H'|]. constructor; [|constructor].
+    exists mechs. split; [apply in_or_app; right; left; reflexivity|exact E].
+  - apply Forall_app. split; [exact H'|]. constructor; [|constructor; [reflexivity|constructor]].
+    exists cm, fm, h. split; [apply in_or_app; right; left; reflexivity|].
+    repeat split; reflexivity.
+Qed.
+
+Lemma fold_justified cfg : forall fs pre s,
+  Forall (out_justified cfg pre) (h_out s) ->
+  Forall (out_justified cfg (pre ++ fs)) (h_out (fold_left (ch0_step cfg) fs s)).
+Proof.
+  induction fs as [|f fs IH]; intros pre s H; cbn [fold_left].
+  - now rewrite app_nil_r.
+  - replace (pre ++ f :: fs) with ((pre ++ [f]) ++ fs) by now rewrite <- app_assoc.
+    apply IH. apply step_justified. exact H.
+Qed.
+
+Theorem outputs_justified cfg fs :
+  Forall (out_justified cfg fs) (h_out (ch0_run cfg fs)).
+Proof. apply (fold_justified cfg fs [] hs_init). constructor. Qed.
+
+(* hence the bounds of the tune answer for every sequence whose Tune offers are
+   non-negative (they are unsigned on the wire) *)
+Theorem tune_answers_bounded cfg fs :
+  Forall (fun f => match f with ITune cm fm _ => 0 <= cm /\ 0 <= fm | _ => True end) fs ->
+  Forall (fun o => match o with
+                   | OTuneOk c f hb => 0 < c <= 65535 /\ 0 < f <= 131072 /\ hb = c_heartbeat cfg
+                   | _ => True end) (h_out (ch0_run cfg fs)).
+Proof.
+  intros Hwf. eapply Forall_impl; [|apply outputs_justified].
+  intros [m r|c f hb|v]; cbn [out_justified]; auto.
+  intros (cm & fm & h & Hin & -> & -> & ->).
+  rewrite Forall_forall in Hwf. specialize (Hwf _ Hin). cbn in Hwf. destruct Hwf as [Hc Hf].
+  destruct (tune_bounds cm Hc) as (A & _ & _ & _).
+  destruct (tune_bounds fm Hf) as (_ & _ & C & _). auto.
+Qed.
+
+Lemma step_errs_mono cfg s f x : In x (h_errs s) -> In x (h_errs (ch0_step cfg s f)).
+Proof.
+  intros H. destruct f as [mechs|cm fm h| |code| | | | | ]; cbn [ch0_step h_errs]; try exact H.
+  - destruct (start_ok cfg mechs) as [[m r]|]; cbn [h_errs]; [exact H|apply in_or_app; auto].
+  - destruct (code =? 200); [exact H|apply in_or_app; auto].
+Qed.
+
+Lemma fold_errs_mono cfg x : forall fs s,
+  In x (h_errs s) -> In x (h_errs (fold_left (ch0_step cfg) fs s)).
+Proof.
+  induction fs as [|f fs IH]; intros s H; cbn [fold_left]; [exact H|].
+  apply IH, step_errs_mono, H.
+Qed.
+
+Theorem refusal_code_recorded cfg fs code :
+  In (IClose code) fs -> code <> 200 -> In (Some code) (h_errs (ch0_run cfg fs)).
+Proof.
+  intros Hin Hc. apply in_split in Hin. destruct Hin as (l1 & l2 & ->).
+  unfold ch0_run. rewrite fold_left_app. cbn [fold_left]. apply fold_errs_mono.
+  cbn [ch0_step h_errs]. apply Z.eqb_neq in Hc. rewrite Hc. apply in_or_app. right. left. reflexivity.
+Qed.
+
+Theorem no_mechanism_recorded cfg fs mechs :
+  In (IStart mechs) fs -> start_ok cfg mechs = None -> In None (h_errs (ch0_run cfg fs)).
+Proof.
+  intros Hin Hn. apply in_split in Hin. destruct Hin as (l1 & l2 & ->).
+  unfold ch0_run. rewrite fold_left_app. cbn [fold_left]. apply fold_errs_mono.
+  cbn [ch0_step]. rewrite Hn. cbn [h_errs]. apply in_or_app. right. left. reflexivity.
+Qed.
